@@ -384,6 +384,10 @@ func familyCore(tier string) []tmpl {
 	out = append(out, tmpl{text: "['it\\'s', 'ok']", spec: "(list (raw it's) (raw ok))"}, tmpl{text: "'it\\'s' | 'ok'", spec: "(pipe (raw it's) (raw ok))"},
 		tmpl{text: "{x: 'a\\'', y: '', z: 'b'}", spec: "(hash x (raw a') y (raw \"\") z (raw b))"},
 		tmpl{text: "['a\\'b', 'c\\'d', 'e']", spec: "(list (raw a'b) (raw c'd) (raw e))"}, tmpl{text: "'a\\'b' | ['c\\'d', @]", spec: "(pipe (raw a'b) (list (raw c'd) (cur)))"})
+	// JSON literals with several escaped backticks (each \` denotes one backtick), alone and next to other literals
+	out = append(out, tmpl{text: "`\"a\\`b\\`c\"`", spec: "(lit \"a`b`c\")"}, tmpl{text: "[`\"\\`\\`\"`, `\"\\`x\"`]", spec: "(list (lit \"``\") (lit \"`x\"))"},
+		tmpl{text: "{x: `[\"\\`\", \"\\`\\`\\`\"]`, y: a}", spec: "(hash x (lit [\"`\",\"```\"]) y (field a))"},
+		tmpl{text: "`{\"\\`k\\`\": 1}` | @", spec: "(pipe (lit {\"`k`\":1}) (cur))"})
 	// multi-select members see the same current node
 	out = append(out, hList(hCur(), hCur()), hList(buildChain(hField("a"), sField("b")), buildChain(hNone(), sIndex("?1")), hLit("null")),
 		hHash("x", buildChain(hField("a"), sIndex("?1")), "y", hCur()), buildChain(hField("a"), sList(hField("b"), hCur()), sIndex("?1")),
